@@ -31,6 +31,11 @@ MIGRATE_PY = SERVER_STORE + "/sqlite/migrate.py"
 UTILS_PY = SERVER_STORE + "/migration_utils.py"
 STORE_INIT = SERVER_STORE + "/__init__.py"
 MIGRATIONS_DIR = SERVER_STORE + "/sqlite/migrations"
+# the production call with two sources (DBOSRuntime.run_migrations): the second package's directory and tuple
+DBOS_PKG = "packages/llama-agents-dbos/src/llama_agents/dbos"
+DBOS_STORE_INIT = DBOS_PKG + "/_store/__init__.py"
+DBOS_RUNTIME_PY = DBOS_PKG + "/runtime.py"
+DBOS_MIGRATIONS_DIR = DBOS_PKG + "/_store/sqlite/migrations"
 
 # --------------------------------------------------------------------------
 # SQL reader: text -> abstract statements
@@ -465,6 +470,81 @@ def extract_source_facts(notes: list[str]) -> dict[str, Any]:
     return f
 
 
+def _source_tuple(rel: str, name: str = "SQLITE_MIGRATION_SOURCE") -> tuple[str, str] | None:
+    """the literal `(package, module)` a store `__init__` binds `name` to"""
+    tree = _parse_py(rel)
+    if tree is None:
+        return None
+    for n in ast.walk(tree):
+        tgt, val = None, None
+        if isinstance(n, ast.AnnAssign) and isinstance(n.target, ast.Name):
+            tgt, val = n.target.id, n.value
+        elif isinstance(n, ast.Assign) and len(n.targets) == 1 and isinstance(n.targets[0], ast.Name):
+            tgt, val = n.targets[0].id, n.value
+        if tgt == name and isinstance(val, ast.Tuple) and len(val.elts) == 2 \
+                and all(isinstance(e, ast.Constant) and isinstance(e.value, str) for e in val.elts):
+            return (val.elts[0].value, val.elts[1].value)
+    return None
+
+
+def extract_production_sources(notes: list[str]) -> dict[str, Any]:
+    """`DBOSRuntime.run_migrations`: the list given as `sources=` to the SQLite runner, each element resolved through
+    runtime.py's own imports to the `(package, module)` literal of the store `__init__` it comes from."""
+    out: dict[str, Any] = {"packages": ["<missing>"], "modules": ["<missing>"], "passed": False}
+    tree = _parse_py(DBOS_RUNTIME_PY)
+    if tree is None:
+        notes.append("translate: gen/migrate cannot read " + DBOS_RUNTIME_PY)
+        return out
+    imported: dict[str, tuple[str, str]] = {}  # local name -> (module, original name)
+    for n in ast.walk(tree):
+        if isinstance(n, ast.ImportFrom) and n.module:
+            for a in n.names:
+                imported[a.asname or a.name] = (n.module, a.name)
+    inits = {"llama_agents.server._store": STORE_INIT, "llama_agents.dbos._store": DBOS_STORE_INIT}
+    fn = _func(tree, "run_migrations")
+    if fn is None:
+        notes.append("translate: gen/migrate: DBOSRuntime.run_migrations not found")
+        return out
+    alias = None  # the name bound to sqlite ... migrate.run_migrations
+    for k, (mod, orig) in imported.items():
+        if mod.endswith("_store.sqlite.migrate") and orig == "run_migrations":
+            alias = k
+    lists: dict[str, list[str]] = {}
+    for n in ast.walk(fn):
+        if isinstance(n, ast.Assign) and len(n.targets) == 1 and isinstance(n.targets[0], ast.Name) \
+                and isinstance(n.value, ast.List) and all(isinstance(e, ast.Name) for e in n.value.elts):
+            lists[n.targets[0].id] = [e.id for e in n.value.elts]
+    for n in ast.walk(fn):
+        if isinstance(n, ast.Call) and isinstance(n.func, ast.Name) and n.func.id == alias:
+            for k in n.keywords:
+                if k.arg == "sources" and isinstance(k.value, ast.Name) and k.value.id in lists:
+                    pk, md = [], []
+                    for name in lists[k.value.id]:
+                        mod, orig = imported.get(name, ("", ""))
+                        tup = _source_tuple(inits[mod], orig) if mod in inits else None
+                        pk.append(tup[0] if tup else "<missing>")
+                        md.append(tup[1] if tup else "<missing>")
+                    out = {"packages": pk, "modules": md, "passed": True}
+    if not out["passed"] or "<missing>" in out["packages"]:
+        notes.append("translate: gen/migrate could not resolve the sources of DBOSRuntime.run_migrations")
+    return out
+
+
+def _lean_files(name: str, doc: str, entries: list[tuple[str, str]], notes: list[str]) -> list[str]:
+    L = [f"/-- {doc} -/", f"def {name} : List (String × List Nat × List RawStmt) := ["]
+    rows = []
+    for fname, text in entries:
+        stmts = parse_sql(text) if fname.endswith(".sql") else []
+        for s in stmts:
+            if s[0] == "unsup":
+                notes.append(f"translate: gen/migrate {name}/{fname}: statement not modelled ({s[1]})")
+        rows.append("  (%s,\n    %s,\n    [%s])" % (
+            lean_str(fname), "[" + ",".join(str(ord(ch)) for ch in text) + "]", ",\n      ".join(lean_stmt(s) for s in stmts)))
+    L.append(",\n".join(rows))
+    L.append("]")
+    return L
+
+
 def read_directory(rel_dir: str) -> list[tuple[str, str]]:
     """[(name, text)] for every regular file of the migrations directory (reverse name order: the
     model must not depend on the listing order)."""
@@ -511,6 +591,24 @@ def generate(notes: list[str]) -> list[str]:
             lean_str(name), "[" + ",".join(str(ord(ch)) for ch in text) + "]", ",\n      ".join(lean_stmt(s) for s in stmts)))
     L.append(",\n".join(rows))
     L.append("]")
+    L.append("")
+    # second package of the production call + the list DBOSRuntime.run_migrations passes
+    prod = extract_production_sources(notes)
+    dtup = _source_tuple(DBOS_STORE_INIT)
+    if dtup is None:
+        notes.append("translate: gen/migrate could not extract the dbos SQLITE_MIGRATION_SOURCE")
+    L.append(f"def dbosPackage : String := {lean_str(dtup[0] if dtup else '<missing>')}")
+    L.append(f"def dbosModule : String := {lean_str(dtup[1] if dtup else '<missing>')}")
+    L.append("/-- packages of `_SQLITE_SOURCES` in `DBOSRuntime.run_migrations`, in list order -/")
+    L.append("def productionPackages : List String := [" + ", ".join(lean_str(x) for x in prod["packages"]) + "]")
+    L.append("def productionModules : List String := [" + ", ".join(lean_str(x) for x in prod["modules"]) + "]")
+    L.append(f"def productionPassesSources : Bool := {'true' if prod['passed'] else 'false'}")
+    try:
+        dentries = read_directory(DBOS_MIGRATIONS_DIR)
+    except OSError as e:
+        notes.append(f"translate: gen/migrate cannot list {DBOS_MIGRATIONS_DIR}: {e!r}")
+        dentries = []
+    L += _lean_files("dbosFiles", "every file of the dbos package's SQLite migrations directory (listing order reversed)", dentries, notes)
     L.append("")
     L.append("end Gen.Migrate")
     return L
